@@ -187,6 +187,7 @@ LAYERS.append(('G8_curve', G8_curve))
 G9_clean = [
     r('Polygon2D.remove_colinear_vertices', [POLY2, Q], name='Polygon2D_remove_colinear_vertices'),
     r('Polygon2D.remove_duplicate_vertices', [POLY2, Q], name='Polygon2D_remove_duplicate_vertices'),
+    r('Polyline2D.remove_colinear_vertices', [O('Polyline2D'), Q], name='Polyline2D_remove_colinear_vertices'),
 ]
 LAYERS.append(('G9_clean', G9_clean))
 
